@@ -400,11 +400,33 @@ def idealStmt (rs ws : SideSem) (N : List String) (w : WSt) (c : Claim) : WSt :=
     else w
   | _, _ => w
 
+/-- the constructor call, ideally: an argument whose read crosses a nil embedded pointer is the zero value (like a
+    skipped statement), every other one the value read; the constructor allocates every embedded pointer -/
+def idealArgs (rs ws : SideSem) (N : List String) (args : List CtorArg) : WSt :=
+  args.foldl (fun w a =>
+    match a.rd with
+    | none => w
+    | some rd =>
+      match resolveField rs.tree rd with
+      | some rl =>
+        if (hops rs.ptrs rl.path).all (nonNil N) then
+          { w with vals := w.vals ++ [(joinPath a.p.path, match a.strat with
+                                                          | .func k => applyFn k (readLeaf N rl)
+                                                          | _ => readLeaf N rl)] }
+        else w
+      | none => w) { alloc := ws.ptrs }
+
+/-- the written value before the statements run: built by the constructor, or allocated along the written paths -/
+def idealStart (rs ws : SideSem) (N : List String) (ctor : Option (List CtorArg)) (alloc : List (List String)) : WSt :=
+  match ctor with
+  | none => { alloc := alloc }
+  | some args => idealArgs rs ws N args
+
 def idealTo (inp : Input) (p : Plan) (t : Tables) (N : List String) : WSt :=
-  p.toStmts.foldl (idealStmt inp.srcSem inp.destSem N) { alloc := t.destAlloc }
+  p.toStmts.foldl (idealStmt inp.srcSem inp.destSem N) (idealStart inp.srcSem inp.destSem N p.destCtor t.destAlloc)
 
 def idealFrom (inp : Input) (p : Plan) (t : Tables) (N : List String) : WSt :=
-  p.fromStmts.foldl (idealStmt inp.destSem inp.srcSem N) { alloc := t.srcAlloc }
+  p.fromStmts.foldl (idealStmt inp.destSem inp.srcSem N) (idealStart inp.destSem inp.srcSem N p.srcCtor t.srcAlloc)
 
 /-- a path list in which the embedded pointers crossed by every entry come earlier in the list -/
 def chainOk (pp : List (List String)) : List (List String) → List (List String) → Bool
@@ -496,14 +518,13 @@ def obs09 (inp : Input) (srcSlots destSlots masks fmasks : List String) : List (
 /-- C05, partially nil chains: the same pairs observed with each embedded pointer nil in turn (the rest
     populated) — the value arrives iff the real path (Go's promotion rule: shallowest wins) is intact -/
 def obsPart (inp : Input) (srcSlots destSlots masks fmasks : List String) : List (String × String) :=
-  if !modelCompiles inp || inp.srcNew || inp.destNew then [] else
+  if !modelCompiles inp then [] else
   let p := plan inp
   let t := tables inp p
   (if toGen inp then masks.map (fun m => ("toN:" ++ m, (execToP inp p t (nilsOf m srcSlots)).show (leavesOf inp.dest))) else []) ++
   (if fromGen inp then fmasks.map (fun m => ("fromN:" ++ m, (execFromP inp p t (nilsOf m destSlots) .clean).show (leavesOf inp.src))) else [])
 
 def specPart (inp : Input) (srcSlots destSlots masks fmasks : List String) : List (String × String) :=
-  if inp.srcNew || inp.destNew then [] else
   let p := plan inp
   let t := tables inp p
   (if toGen inp then masks.map (fun m => ("toN:" ++ m, (Outcome.value (idealTo inp p t (nilsOf m srcSlots))).show (leavesOf inp.dest))) else []) ++
@@ -557,6 +578,13 @@ def spec15 (inp : Input) : List (String × String) :=
           | [_] => some ("writes:from:" ++ joinPath l.path, "1")
           | _ => none) else [])
 
+/-- the assumption the constructor path of ToX / FromX rests on (mapper.tmpl emits no allocations there), as an observable:
+    the generated constructor of an accessor-mode side allocates every embedded pointer struct, to any depth — whether or not a
+    constructor parameter or a field written afterwards lies below it -/
+def ctorAlloc (inp : Input) : List (String × String) :=
+  (if inp.srcNew then (ptrPaths [] inp.src).map (fun p => ("ctoralloc:src:" ++ joinPath p, "true")) else []) ++
+  (if inp.destNew then (ptrPaths [] inp.dest).map (fun p => ("ctoralloc:dest:" ++ joinPath p, "true")) else [])
+
 def genArgs (inp : Input) : List CtorArg :=
   let p := plan inp
   (if toGen inp then p.destCtor.getD [] else []) ++ (if fromGen inp then p.srcCtor.getD [] else [])
@@ -584,6 +612,17 @@ def F_ctorNoSub (inp : Input) : Bool :=
     | [c] => isSubStrat c.2
     | _ => false))
 
+/-- F_ctorArgNil: the arguments of the constructor call are evaluated UNGUARDED (`NewT(d_.Zone, …)`): an argument read through
+    an embedded pointer of the other side panics when that pointer is nil, where the same field mapped by a statement is
+    skipped behind `if d_.Base != nil` -/
+def F_ctorArgNil (inp : Input) : Bool :=
+  (toGen inp && ((plan inp).destCtor.getD []).any (fun a => match a.rd with
+    | some rd => (match resolveField inp.src rd with | some rl => !(hops inp.srcSem.ptrs rl.path).isEmpty | none => false)
+    | none => false)) ||
+  (fromGen inp && ((plan inp).srcCtor.getD []).any (fun a => match a.rd with
+    | some rd => (match resolveField inp.dest rd with | some rl => !(hops inp.destSem.ptrs rl.path).isEmpty | none => false)
+    | none => false))
+
 def isPanic : Outcome → Bool
   | .panic => true
   | _ => false
@@ -602,9 +641,16 @@ def region15 (inp : Input) : String :=
   else if F_ptrEmbedSetter inp then "F_ptrEmbedSetter"
   else if F_skipTagNew inp then "F_skipTagNew"
   else if F_ctorNoSub inp then "F_ctorNoSub"
+  else if F_ctorArgNil inp then "F_ctorArgNil"
   else if F_multiMatch inp then "Out"
   else "WF"
 
+
+/-- C09 over accessor-mode sides (constructor path, promoted getters / setters): only where C15 has nothing to report — its
+    finding regions stay C15's. The theorems of Props/C09 are about plain sides; these inputs are tied to the code by the
+    correspondence run alone (no panic for nil / dirty / fresh receivers and a partially nil plain side) -/
+def region09n (inp : Input) : String :=
+  if inp.srcNew || inp.destNew then (if region15 inp == "WF" then "WFn" else "Out") else region09 inp
 
 /-! ## C01 leg: does the output compile -/
 
